@@ -267,7 +267,14 @@ func c05Open(c *eng.Ctx, k *kvAnalysis) {
 			}
 		}
 		f = decrypt.Parent()
-		okChain := eng.Same(decrypt.Call.Value, firstResult(newAEAD)) && eng.Same(newAEAD.Call.Args[0], firstResult(readKS)) && kekP != nil && eng.OriginX(readKS.Call.Args[1]) == eng.OriginX(kekP)
+		// (a link may pass through the result of a helper that builds it)
+		via := func(v ssa.Value) ssa.Value {
+			if inner, _ := eng.ThroughHelper(v, func(g *ssa.Function) bool { return eng.IsHelper(f, g) }); inner != nil {
+				return inner
+			}
+			return v
+		}
+		okChain := eng.Same(via(decrypt.Call.Value), firstResult(newAEAD)) && eng.Same(via(newAEAD.Call.Args[0]), firstResult(readKS)) && kekP != nil && eng.OriginX(readKS.Call.Args[1]) == eng.OriginX(kekP)
 		c.Check(okChain, "R-C05-5", f, decrypt.Pos(), "decryption chain in "+f.Name(), "the database is decrypted with the cipher of the DEK that the caller's key-encryption key unwrapped", "")
 		// versions fed to the contexts are the checked wrapped.Version
 		for _, call := range []*ssa.Call{readKS, decrypt} {
